@@ -15,6 +15,7 @@ theorem cscalar_dt_intersect_eq_model (g : Nat → Rat) (u v : Nat) (s0 : Rat) :
     dt_intersect (α := Rat) (g v) (v : Int) (g u) (u : Int) s0 = C05.sInt g u v := by
   unfold dt_intersect C05.sInt
   push_cast
+  simp only [div_div]
   ring
 
 example : dt_intersect (α := Int) 0 2 4 0 0 = 0 ∧ dt_intersect (α := Int) 5 3 0 1 0 = 3 := by decide
